@@ -582,7 +582,7 @@ func init() {
 			for rep := 0; rep < nPer; rep++ {
 				n := rng.Intn(40)
 				if thorough && rep == 0 {
-					n = rng.Intn(65536)
+					n = rng.Intn(6000) // beyond the 4 KiB read-ahead; the extracted model is quadratic in the payload
 				}
 				x := c05Payload(rng, n)
 				// encode in reverse: the last filter of the chain is applied first by the encoder
